@@ -15,7 +15,13 @@
     code -> spec (TRACE): every distinct observed call (previous state, call, observed outcome incl. markers) is validated
     by spec/trace/Trace_Pipeline.tla; the fan-out structure / slices / result counts of every real run (synthetic and
     real transforms: split_non_commuting, broadcast_expand) by spec/trace/Trace_PipelineApply.tla.
-    Real-transform pipelines are executed on default.qubit and compared numerically with the by-hand application."""
+    Real-transform pipelines are executed on default.qubit and compared numerically with the by-hand application.
+    Configured expand pairs: the kinds x(7) / x(c=7) in the list model (companion expand entry bound to the same configuration),
+    and in the application replay a transform + expand_transform pair whose fan-out tables are selected by a positional /
+    keyword argument, placed through the constructor, +, append, add_transform and insert.
+    Classical cotransforms: pipelines whose last stage has one are model-checked with per-tape Jacobian nodes and replayed
+    through a real QNode + CotransformCache (the Jacobian of a synthetic tape is its identity); param_shift after a fan-out
+    into RX(t), RX(t^2), ... is compared with the by-hand chain rule (per-circuit Jacobians) and finite differences."""
 import copy
 import json
 import os
@@ -682,6 +688,8 @@ def run_apply(tier, seed, cov, viol, g, m):
 
     for ci, case in enumerate(cases):
         tables = case["pipe"]
+        if case["cot"] and len(tables) >= 3 and ci % 8:
+            continue                 # (thorough: the 3-stage cotransform cases are all model-checked, one in 8 is replayed)
         if case["cot"]:
             # classical cotransform on the last stage: run through a real QNode + CotransformCache (symbolic Jacobians)
             counts["classical_cotransform_cases"] += 1
